@@ -66,8 +66,9 @@ type vtAdded struct {
 
 // vtProxyMuxEnd waits for the provider to hand over a session (AddNewMux) and then runs the proxy's side of the byte
 // exchange on it.  stop is closed by the caller only after the provider has terminated, so "no session was added" is
-// a definite observation, not a timeout.
-func vtProxyMuxEnd(addedCh <-chan vtAdded, stop <-chan struct{}, open bool) vtEnd {
+// a definite observation, not a timeout.  The session is kept until release is closed (the other end has read the
+// answer: closing a yamux session races with the delivery of its last data frame).
+func vtProxyMuxEnd(addedCh <-chan vtAdded, stop, release <-chan struct{}, open bool, done chan<- vtEnd) {
 	var a vtAdded
 	select {
 	case a = <-addedCh:
@@ -75,11 +76,12 @@ func vtProxyMuxEnd(addedCh <-chan vtAdded, stop <-chan struct{}, open bool) vtEn
 		select {
 		case a = <-addedCh:
 		default:
-			return vtEnd{}
+			done <- vtEnd{}
+			return
 		}
 	}
 	e := vtEnd{Hs: true} // the session exists: handshake and yamux ping succeeded at the proxy's end
-	var st net.Conn
+	var st *yamux.Stream // typed: a failed OpenStream / AcceptStream returns a nil *Stream
 	var err error
 	if open {
 		st, err = a.s.OpenStream()
@@ -92,12 +94,15 @@ func vtProxyMuxEnd(addedCh <-chan vtAdded, stop <-chan struct{}, open bool) vtEn
 		} else {
 			e.Byte, err = vtAnswer(st)
 		}
-		_ = st.Close()
 	}
 	e.Err, e.timedOut = vtErrStr(err), vtIsTimeout(err)
+	done <- e
+	<-release
+	if st != nil {
+		_ = st.Close()
+	}
 	_ = a.s.Close()
 	_ = a.conn.Close()
-	return e
 }
 
 // vtStopProvider ends the provider's lifetime and waits until its loop has terminated.
@@ -107,6 +112,87 @@ func vtStopProvider(cancel context.CancelFunc, prov mux.MuxProvider, r *vtRec) {
 	go func() { prov.WaitForClose(); close(done) }()
 	if _, ok := vtWait(done); !ok {
 		r.Note = "timeout: mux provider did not terminate"
+	}
+}
+
+// vtPeerMuxEnd is the raw peer's side of a mux connection: crypto/tls handshake, yamux session, byte exchange on one
+// stream (initiate = client role of the raw peer).  Like the proxy's end it reports first and closes on release.
+func vtPeerMuxEnd(tconn *tls.Conn, initiate bool, sent func() bool, release <-chan struct{}, done chan<- vtEnd) {
+	var e vtEnd
+	var sess *yamux.Session
+	var st *yamux.Stream // typed: a failed OpenStream / AcceptStream returns a nil *Stream
+	_ = tconn.SetDeadline(time.Now().Add(vtIOTimeout))
+	err := tconn.Handshake()
+	if err == nil {
+		e.Hs = true
+		_ = tconn.SetDeadline(time.Time{})
+		if initiate {
+			if sess, err = yamux.Client(tconn, vtYamuxCfg()); err == nil {
+				if st, err = sess.OpenStream(); err == nil {
+					e.Byte, err = vtInitiate(st)
+				}
+			}
+		} else {
+			if sess, err = yamux.Server(tconn, vtYamuxCfg()); err == nil {
+				if st, err = sess.AcceptStream(); err == nil {
+					e.Byte, err = vtAnswer(st)
+				}
+			}
+		}
+	}
+	e.Err, e.timedOut, e.Sent = vtErrStr(err), vtIsTimeout(err), sent()
+	done <- e
+	<-release
+	if st != nil {
+		_ = st.Close()
+	}
+	if sess != nil {
+		_ = sess.Close()
+	}
+	_ = tconn.Close()
+}
+
+// vtJoinMux collects both ends.  Every end reports its observation and then keeps its session open until release:
+// closing a yamux session races with the completion of the other side's last Read / Write.  If the first end to
+// report exchanged the byte, the other end has all it needs to finish by itself; if it did not, its resources are
+// released at once (that unblocks the other end with an error), the provider is terminated, and only then "no
+// session was added" is read off (stop).
+func vtJoinMux(r *vtRec, proxyDone, peerDone <-chan vtEnd, release, stop chan struct{}, cancel context.CancelFunc,
+	prov mux.MuxProvider) {
+	gotProxy, gotPeer := false, false
+	select {
+	case r.Proxy = <-proxyDone:
+		gotProxy = true
+	case r.Peer = <-peerDone:
+		gotPeer = true
+	case <-time.After(vtIOTimeout):
+		r.Note = "timeout: neither end of the mux finished"
+	}
+	rest := func() {
+		var ok bool
+		if !gotProxy {
+			if r.Proxy, ok = vtWait(proxyDone); !ok {
+				r.Note = "timeout: proxy end of the mux did not finish"
+			}
+		}
+		if !gotPeer {
+			if r.Peer, ok = vtWait(peerDone); !ok {
+				r.Note = "timeout: raw peer end of the mux did not finish"
+			}
+		}
+	}
+	if (gotProxy && r.Proxy.Byte) || (gotPeer && r.Peer.Byte) {
+		rest()
+		close(release)
+		vtStopProvider(cancel, prov, r)
+		close(stop)
+		return
+	}
+	close(release)
+	vtStopProvider(cancel, prov, r)
+	close(stop)
+	if r.Note == "" {
+		rest()
 	}
 }
 
@@ -129,56 +215,18 @@ func vtMuxServer(p *vtPKI, c vtCase, r *vtRec) {
 	}
 	r.Startup = "ready"
 	prov.Start()
-	stop := make(chan struct{})
-	proxyDone := make(chan vtEnd, 1)
-	go func() { proxyDone <- vtProxyMuxEnd(addedCh, stop, false) }()
-
-	// the raw peer
-	var peer vtEnd
+	stop, release := make(chan struct{}), make(chan struct{})
+	proxyDone, peerDone := make(chan vtEnd, 1), make(chan vtEnd, 1)
+	go vtProxyMuxEnd(addedCh, stop, release, false, proxyDone)
+	pc, sent := p.peerClient(c.Cred)
 	conn, err := net.Dial("tcp", prov.Address())
 	if err != nil {
 		r.Note = "dial: " + err.Error()
+		peerDone <- vtEnd{Err: err.Error()}
 	} else {
-		tconn := tls.Client(conn, p.peerClient(c.Cred))
-		_ = tconn.SetDeadline(time.Now().Add(vtIOTimeout))
-		err = tconn.Handshake()
-		if err == nil {
-			peer.Hs = true
-			_ = tconn.SetDeadline(time.Time{})
-			var sess *yamux.Session
-			if sess, err = yamux.Client(tconn, vtYamuxCfg()); err == nil {
-				var st net.Conn
-				if st, err = sess.OpenStream(); err == nil {
-					peer.Byte, err = vtInitiate(st)
-					_ = st.Close()
-				}
-				if !peer.Byte {
-					_ = sess.Close()
-				} else {
-					defer sess.Close()
-				}
-			}
-		}
-		peer.Err, peer.timedOut = vtErrStr(err), vtIsTimeout(err)
-		if !peer.Byte {
-			_ = tconn.Close()
-		} else {
-			defer tconn.Close()
-		}
+		go vtPeerMuxEnd(tls.Client(conn, pc), true, sent.Load, release, peerDone)
 	}
-	r.Peer = peer
-	if !peer.Byte {
-		// the peer is done and did not get through: end the provider, then see whether it had added a session
-		vtStopProvider(cancel, prov, r)
-	}
-	close(stop)
-	var ok bool
-	if r.Proxy, ok = vtWait(proxyDone); !ok {
-		r.Note = "timeout: proxy end of the mux did not finish"
-	}
-	if peer.Byte {
-		vtStopProvider(cancel, prov, r)
-	}
+	vtJoinMux(r, proxyDone, peerDone, release, stop, cancel, prov)
 }
 
 // ---- role client over mux: transport/mux/establisher.go
@@ -205,10 +253,10 @@ func vtMuxClient(p *vtPKI, c vtCase, r *vtRec) {
 		return
 	}
 	r.Startup = "ready"
+	stop, release := make(chan struct{}), make(chan struct{})
+	proxyDone, peerDone := make(chan vtEnd, 1), make(chan vtEnd, 1)
 	// the raw peer: the FIRST connection is the case; the establisher redials at once after a refused attempt, later
 	// connections (same configuration, same credential, same outcome) are closed unanswered
-	peerDone := make(chan vtEnd, 1)
-	release := make(chan struct{})
 	go func() {
 		first := true
 		for {
@@ -221,64 +269,13 @@ func vtMuxClient(p *vtPKI, c vtCase, r *vtRec) {
 				continue
 			}
 			first = false
-			go func() {
-				var e vtEnd
-				tconn := tls.Server(conn, p.peerServer(c.Cred))
-				_ = tconn.SetDeadline(time.Now().Add(vtIOTimeout))
-				err := tconn.Handshake()
-				if err == nil {
-					e.Hs = true
-					_ = tconn.SetDeadline(time.Time{})
-					var sess *yamux.Session
-					if sess, err = yamux.Server(tconn, vtYamuxCfg()); err == nil {
-						var st net.Conn
-						if st, err = sess.AcceptStream(); err == nil {
-							e.Byte, err = vtAnswer(st)
-							_ = st.Close()
-						}
-						if e.Byte {
-							<-release // keep the session until the proxy's end has read the answer
-						}
-						_ = sess.Close()
-					}
-				}
-				e.Err, e.timedOut = vtErrStr(err), vtIsTimeout(err)
-				_ = tconn.Close()
-				peerDone <- e
-			}()
+			go vtPeerMuxEnd(tls.Server(conn, p.peerServer(c.Cred)), false, func() bool { return c.Cred.Class != "none" },
+				release, peerDone)
 		}
 	}()
 	prov.Start()
-	stop := make(chan struct{})
-	proxyDone := make(chan vtEnd, 1)
-	go func() { proxyDone <- vtProxyMuxEnd(addedCh, stop, true) }()
-	// the proxy's end finishes when it exchanged the byte; otherwise the peer's end finishes with a refused handshake
-	// or a dead session
-	select {
-	case e := <-proxyDone:
-		r.Proxy = e
-		close(release)
-		var ok bool
-		if r.Peer, ok = vtWait(peerDone); !ok {
-			r.Note = "timeout: raw mux server did not finish"
-		}
-		vtStopProvider(cancel, prov, r)
-		close(stop)
-	case e := <-peerDone:
-		r.Peer = e
-		close(release)
-		vtStopProvider(cancel, prov, r)
-		close(stop)
-		var ok bool
-		if r.Proxy, ok = vtWait(proxyDone); !ok {
-			r.Note = "timeout: proxy end of the mux did not finish"
-		}
-	case <-time.After(vtIOTimeout):
-		r.Note = "timeout: neither end of the mux finished"
-		close(release)
-		cancel()
-		close(stop)
-	}
+	go vtProxyMuxEnd(addedCh, stop, release, true, proxyDone)
+	vtJoinMux(r, proxyDone, peerDone, release, stop, cancel, prov)
 }
 
 // ---- gRPC plumbing shared by the two TCP transports
@@ -368,7 +365,8 @@ func vtTCPServer(p *vtPKI, c vtCase, r *vtRec) {
 		return
 	}
 	go func() { _ = srv.Serve(ln) }()
-	creds := vtNewCreds(p.peerClient(c.Cred))
+	pc, sent := p.peerClient(c.Cred)
+	creds := vtNewCreds(pc)
 	cc, err := grpc.NewClient(ln.Addr().String(), grpc.WithTransportCredentials(creds), grpc.WithDisableRetry(),
 		grpc.WithConnectParams(grpc.ConnectParams{Backoff: backoff.Config{BaseDelay: 10 * time.Millisecond, Multiplier: 1.2,
 			MaxDelay: 50 * time.Millisecond}, MinConnectTimeout: vtIOTimeout}))
@@ -381,7 +379,7 @@ func vtTCPServer(p *vtPKI, c vtCase, r *vtRec) {
 	_, err = healthpb.NewHealthClient(cc).Check(rctx, &healthpb.HealthCheckRequest{})
 	timedOut := rctx.Err() != nil
 	rcancel()
-	r.Peer = vtEnd{Hs: creds.ok.Load() > 0, Byte: err == nil, Err: vtErrStr(err), timedOut: timedOut}
+	r.Peer = vtEnd{Hs: creds.ok.Load() > 0, Byte: err == nil, Err: vtErrStr(err), Sent: sent.Load(), timedOut: timedOut}
 	_ = cc.Close()
 	srv.Stop()
 	r.Proxy = vtEnd{Hs: cs.begun.Load() > 0, Byte: hs.calls.Load() > 0}
@@ -420,5 +418,5 @@ func vtTCPClient(p *vtPKI, c vtCase, r *vtRec) {
 	r.Proxy = vtEnd{Hs: err == nil, Byte: err == nil, Err: vtErrStr(err), timedOut: timedOut}
 	_ = cc.Close()
 	srv.Stop()
-	r.Peer = vtEnd{Hs: creds.ok.Load() > 0, Byte: hs.calls.Load() > 0}
+	r.Peer = vtEnd{Hs: creds.ok.Load() > 0, Byte: hs.calls.Load() > 0, Sent: c.Cred.Class != "none"}
 }
